@@ -91,6 +91,11 @@ def handleTurns (j : Json) : R Json := do
 def handleNorm (j : Json) : R Json := do
   pure (recJ (normalize (← fldBool j "ci") (← recOf (← fld j "rec"))))
 
+/-- `{"c":"c01.norm_ok","ci":b,"inp":{..},"out":{..}}` → `normOkB ci inp out`, `out` being what the REAL
+`normalize_for_identity` returned -/
+def handleNormOk (j : Json) : R Json := do
+  pure (jBool (normOkB (← fldBool j "ci") (← recOf (← fld j "inp")) (← recOf (← fld j "out"))))
+
 /-- monitor, evaluated on IMPLEMENTATION outputs of two executions of the same logical turn list:
 `(∀ i, decEquivB cfg dᵢ d'ᵢ) → canon outsᵢ = canon outs'ᵢ` (utterance and canonical records) -/
 def handleSameCanon (j : Json) : R Json := do
@@ -100,7 +105,7 @@ def handleSameCanon (j : Json) : R Json := do
   let oa ← (← fldArr j "outsA").toList.mapM outOf
   let ob ← (← fldArr j "outsB").toList.mapM outOf
   let equiv := da.length == db.length && (da.zip db).all (fun p => decEquivB cfg p.1 p.2)
-  let same := oa.length == ob.length && (oa.zip ob).all (fun p => sameCanonB cfg p.1 p.2)
+  let same := oa.length == ob.length && (oa.zip ob).all (fun p => sameCanonImplB p.1 p.2)
   pure (jBool (!equiv || same))
 
 /-- `{"c":"c01.equiv","cfg":..,"decsA":..,"decsB":..}` → are the two clock contributions indistinguishable? -/
@@ -119,7 +124,7 @@ def handleTables (_ : Json) : R Json :=
               ("core_ok", jBool (Clem.Gen.Determinism.clockReads.all (·.coreOk)))])
 
 def routes : List (String × (Json → R Json)) :=
-  [("c01.turns", handleTurns), ("c01.norm", handleNorm), ("c01.same_canon", handleSameCanon),
+  [("c01.turns", handleTurns), ("c01.norm", handleNorm), ("c01.norm_ok", handleNormOk), ("c01.same_canon", handleSameCanon),
    ("c01.equiv", handleEquiv), ("c01.tables", handleTables)]
 
 end Driver.HC01
